@@ -331,3 +331,27 @@ def reads_of(n, name: str) -> bool:
             if dotted(x) == name:
                 return True
     return False
+
+
+def specialise(fnode: ast.AST, name: str, value: bool) -> ast.AST:
+    """copy of a function with `if <name>:` / `if not <name>:` statements resolved for a fixed boolean parameter
+    (removes the infeasible paths a path-insensitive CFG would otherwise see)"""
+    import copy
+
+    class T(ast.NodeTransformer):
+        def visit_If(self, node):
+            self.generic_visit(node)
+            t = node.test
+            known = None
+            if isinstance(t, ast.Name) and t.id == name:
+                known = value
+            elif isinstance(t, ast.UnaryOp) and isinstance(t.op, ast.Not) and isinstance(t.operand, ast.Name) and t.operand.id == name:
+                known = not value
+            if known is None:
+                return node
+            body = node.body if known else node.orelse
+            return body if body else ast.copy_location(ast.Pass(), node)
+
+    new = T().visit(copy.deepcopy(fnode))
+    ast.fix_missing_locations(new)
+    return new
